@@ -1,6 +1,8 @@
 """C08 — well-formed per-peer connection and substream event stream of TransportService
 (model: Model/Service/{Conns,Order}.lean, adapter: src/verif/c08.rs)."""
+import glob
 import itertools
+import os
 from .common import bump
 
 ID = "C08"
@@ -8,7 +10,15 @@ AREA = "c08"
 LEAN_PROPS = "Litep2pVerif.Props.C08"
 THEOREMS = ["alternation", "closed_iff_last", "substream_refers_connected", "open_answered_at_most_once",
             "open_answered_once_unless_closed", "ids_fresh"]
-CONSTS = []
+CONSTS = ["PROTOCOL_COMMAND_CHANNEL_SIZE", "YAMUX_MAX_ACK_BACKLOG"]
+_YAMUX = (sorted(glob.glob(os.path.expanduser("~/.cargo/registry/src/*/yamux-0.13.10/src/lib.rs")))
+          or sorted(glob.glob(os.path.expanduser("~/.cargo/registry/src/*/yamux-0.13*/src/lib.rs"))) or ["yamux/src/lib.rs"])[0]
+CONST_TABLE = [
+    # `ProtocolSet::new`: capacity of the connection's command channel (a full channel refuses an open request)
+    ("PROTOCOL_COMMAND_CHANNEL_SIZE", "src/protocol/protocol_set.rs", r"let \(tx, rx\) = channel\((\d+)\);", 256),
+    # yamux: outbound streams that may wait for the remote's acknowledgement; the next `open_stream()` waits
+    ("YAMUX_MAX_ACK_BACKLOG", _YAMUX, r"const MAX_ACK_BACKLOG: usize = (\d+);", 256),
+]
 MANIFEST = {
     "text": "Lean 4 theorems about an operational model of TransportService::{on_connection_established, "
             "on_connection_closed, open_substream} and its event paths: alternation and ids_fresh for EVERY history "
